@@ -33,6 +33,10 @@ private theorem okPrefix_encodable (cd : Codec α) (cfg : EncCfg) (evs : List (S
 private theorem payload_lt_of_encodable (cd : Codec α) (cfg : EncCfg) (m : α) (h : encodeErr cd cfg m = none) :
     (Framing.payload cd cfg m).length < 4294967296 := by
   simp only [encodeErr] at h
+  cases hsf : cd.serFail m with
+  | true => simp [hsf] at h
+  | false =>
+  simp only [hsf, Bool.false_eq_true, ↓reduceIte] at h
   cases hm : cfg.maxSize with
   | none => simp [hm, u32Max] at h; omega
   | some l =>
